@@ -1,4 +1,5 @@
 import TextxVerif.Proofs.LinkLocFirst
+import TextxVerif.Proofs.LinkLocCount
 /-!
 # C28 — model loading errors point at the offending text
 
@@ -46,6 +47,19 @@ line and column are equal — so a correct line/col *is* the location of the tex
 theorem C28_linecol_identifies (input : List Char) (p q : Nat) (hp : p ≤ input.length)
     (hq : q ≤ input.length) (h : lineColSpec input p = lineColSpec input q) : p = q :=
   lineColSpec_injective input p q hp hq h
+
+/-- **What line and column mean** (second, non-recursive description of `lineColSpec`; it is what
+the harness oracle computes with `text.count("\n", 0, off)` and `text.rfind("\n", 0, off)`): for an
+offset inside the text (or at its end) the line is one plus the number of `'\n'` before the offset, and
+the column is one plus the distance from the line start `s = pos - (col - 1)`, where `s` is offset 0 or
+the offset just after a `'\n'`, and there is no `'\n'` between `s` and the offset. -/
+theorem C28_linecol_meaning (input : List Char) (pos : Nat) (h : pos ≤ input.length) :
+    (lineColSpec input pos).1 = (input.take pos).count '\n' + 1 ∧
+    1 ≤ (lineColSpec input pos).2 ∧ (lineColSpec input pos).2 - 1 ≤ pos ∧
+    (pos - ((lineColSpec input pos).2 - 1) = 0 ∨
+      input[pos - ((lineColSpec input pos).2 - 1) - 1]? = some '\n') ∧
+    (∀ i, pos - ((lineColSpec input pos).2 - 1) ≤ i → i < pos → input[i]? ≠ some '\n') :=
+  lineColSpec_meaning input pos h
 
 /-- **The `'\r'` alternative of `pos_to_linecol` is dead.**  For every text and every
 offset (also outside the text), `pos_to_linecol` equals the variant `posToLineColLF` whose
